@@ -372,7 +372,7 @@ def gz_jobs(Job, cfg=CFG_NDEBUG, tier="quick"):
             Job("D_check_zlib_error_code_%s" % cfg[0], "harness/dfs_gz.c", "h_check_zlib", enforce=["check_zlib_error_code"],
                 defines=list(cfg[1]), extract=ext(g), tier=tier),
             Job("D_gz_inflate_loop_%s" % cfg[0], "harness/dfs_gz.c", "h_gz_loop", enforce=["gz_inflate_loop"], replace=["check_zlib_error_code"],
-                loops=True, defines=list(cfg[1]), extract=ext(g), tier=tier, cover=True, solver="portfolio")] + gzread_jobs(Job, cfg, tier)
+                loops=True, defines=list(cfg[1]), extract=ext(g), tier=tier, cover=True, solver="portfolio")] + gzread_jobs(Job, cfg, tier) + hints_jobs(Job, cfg, tier)
 
 
 # ---- flux adapters and PicTrack (C05 / C06 image-level clause) ----------------------------------------------------------
@@ -520,3 +520,9 @@ def geometry_jobs(Job, cfg=CFG_NDEBUG, tier="quick"):
 
 def c13_extra(Job, tier):
     return geometry_jobs(Job)
+
+
+def hints_jobs(Job, cfg=CFG_NDEBUG, tier="quick"):
+    return [Job("D_candidate_hints_%s" % cfg[0], "harness/dfs_hints.c", "h_candidate_hints", enforce=["candidate_hints"],
+                defines=list(cfg[1]), extract=ext(["candidate_hints"]), tier=tier,
+                cbmc=["--unwindset", "lit_ext.0:6", "--unwinding-assertions"])]
